@@ -19,6 +19,7 @@ import (
 	"os/exec"
 	"path/filepath"
 	"runtime"
+	"sort"
 	"strings"
 	"sync"
 	"time"
@@ -176,12 +177,13 @@ type runCtx struct {
 }
 
 type execRec struct {
-	e     *sched.Exec
-	ops   []porcupine.Operation
-	outs  []string
-	final map[string][]byte
-	store *wit.Store
-	reads [][]uint64 // per task: sizes seen by its successive reads
+	e                 *sched.Exec
+	ops               []porcupine.Operation
+	outs              []string
+	final             map[string][]byte
+	store             *wit.Store
+	reads             [][]uint64 // per task: sizes seen by its successive reads
+	logList, wantLogs []string   // final log list vs logs that hold a checkpoint
 }
 
 func (rc *runCtx) build() (*sched.Exec, func() *execRec) {
@@ -331,6 +333,19 @@ func (rc *runCtx) build() (*sched.Exec, func() *execRec) {
 				end += 2
 			}
 		}
+		if !ex.Deadlock {
+			// the log list is an outcome too: after everything returned it must be what some sequential order gives
+			if ll, err := rn.W.GetLogs(); err == nil {
+				sort.Strings(ll)
+				rec.logList = ll
+				for _, l := range sc.u.Logs {
+					if rec.final[l.ID] != nil {
+						rec.wantLogs = append(rec.wantLogs, l.ID)
+					}
+				}
+				sort.Strings(rec.wantLogs)
+			}
+		}
 		lin.MarkOverlaps(ops)
 		rec.ops = ops
 		return rec
@@ -478,6 +493,10 @@ func worker(run *ev.Run, scs []*scenario, keys *wit.WitKeys, stores []string, di
 				run.Violate("not_linearizable;"+what, "the outcomes are not those of any sequential order compatible with real time: "+vec, unit, detail)
 			case "unknown":
 				run.Inconclusive("porcupine timed out")
+			}
+			if fmt.Sprint(rec.logList) != fmt.Sprint(rec.wantLogs) {
+				detail["log_list"], detail["logs_with_checkpoint"] = rec.logList, rec.wantLogs
+				run.Violate("log_list_not_sequential;"+what, fmt.Sprintf("after all requests returned the log list has %d entries but %d logs hold a checkpoint (no sequential order of the requests gives that)", len(rec.logList), len(rec.wantLogs)), unit, detail)
 			}
 			for _, sizes := range rec.reads {
 				for k := 1; k < len(sizes); k++ {
